@@ -138,12 +138,16 @@ var (
 	catchProb  = []string{"a", "%41", "a/b", ""}
 	// value menus of the literal/encoding universe: the design menus plus the text that looks
 	// like the escaped spelling of the literal "é" (to a literal what %41 is to "A")
-	singleLit = append(append([]string{}, singleFull...), "%C3%A9")
-	catchLit  = append(append([]string{}, catchFull...), "%C3%A9")
+	// and values that are not canonical paths: a middleware or router that "cleans" the path
+	// (removes empty, "." and ".." segments) before or instead of matching changes them
+	nonCanonSingle = []string{".", ".."}
+	nonCanonCatch  = []string{"a//b", "/a", ".", "..", "a/../b", "a/./b", "https://x/y"}
+	singleLit      = append(append(append([]string{}, singleFull...), "%C3%A9"), nonCanonSingle...)
+	catchLit       = append(append(append([]string{}, catchFull...), "%C3%A9"), nonCanonCatch...)
 	// probe menus of the literal/encoding universe: one value per class that decides whether
 	// the parsed URL has a RawPath and whether the decoded and the escaped spelling differ
-	singleProbLit = []string{"a", "a b", "%41", "é", "a/b"}
-	catchProbLit  = []string{"a", "a b", "%41", "é", "a/b", ""}
+	singleProbLit = []string{"a", "a b", "%41", "é", "a/b", ".."}
+	catchProbLit  = []string{"a", "a b", "%41", "é", "a/b", "", "a//b", "a/../b"}
 )
 
 // An encoder is one way a client spells a value in a URL path.
@@ -188,7 +192,14 @@ func valueClass(v string) string {
 		}
 		return "pct-bare"
 	}
+	for _, sg := range strings.Split(v, "/") {
+		if sg == "." || sg == ".." {
+			return "dot-segment"
+		}
+	}
 	switch {
+	case strings.Contains(v, "//") || strings.HasPrefix(v, "/") || strings.HasSuffix(v, "/"):
+		return "empty-segment"
 	case strings.Contains(v, "/"):
 		return "slash"
 	case strings.Contains(v, " "):
@@ -265,7 +276,23 @@ func match(p *pat, segs []string, lenient bool) (bool, []string) {
 	return matchForm(p, segs, lenient, false)
 }
 
+// matchEmptyCapture is the strict matcher except that {name} may take an empty segment. A path
+// it accepts IS the pattern with values substituted, one of them the empty text ("//a" is
+// /{x}/a with x = "" as much as it is /{*w} with w = "/a"): when such a pattern serves a
+// request that another pattern matches strictly, the request was ambiguous, and which of
+// several matching patterns wins is not asserted. It never obliges the router to dispatch.
+func matchEmptyCapture(p *pat, segs []string) bool {
+	ok, _ := matchOpts(p, segs, true, false, false)
+	return ok
+}
+
 func matchForm(p *pat, segs []string, lenient, decoded bool) (bool, []string) {
+	return matchOpts(p, segs, lenient, lenient, decoded)
+}
+
+// matchOpts: emptyParam lets {name} take an empty segment, noSlashCatch lets a catch-all match
+// a path that stops right before its separating slash.
+func matchOpts(p *pat, segs []string, emptyParam, noSlashCatch, decoded bool) (bool, []string) {
 	var caps []string
 	for i, s := range p.Segs {
 		switch s.Kind {
@@ -274,7 +301,7 @@ func matchForm(p *pat, segs []string, lenient, decoded bool) (bool, []string) {
 				return false, nil
 			}
 			if len(segs) == i {
-				if !lenient {
+				if !noSlashCatch {
 					return false, nil
 				}
 				return true, append(caps, "")
@@ -284,7 +311,7 @@ func matchForm(p *pat, segs []string, lenient, decoded bool) (bool, []string) {
 			if len(segs) <= i {
 				return false, nil
 			}
-			if segs[i] == "" && !lenient {
+			if segs[i] == "" && !emptyParam {
 				return false, nil
 			}
 			caps = append(caps, segs[i])
